@@ -3964,6 +3964,10 @@ fn create_gnu_hash_layout(
     dynamic_symbol_definitions: &mut [DynamicSymbolDefinition<'_, Elf>],
 ) -> Option<GnuHashLayout> {
     if !args.hash_style.includes_gnu() || !output_kind.needs_dynamic() {
+        // Without .gnu.hash there's no required order for the dynamic symbols, but the order in
+        // which they were collected depends on thread scheduling. Sort them so that our output is
+        // deterministic.
+        dynamic_symbol_definitions.par_sort_unstable_by_key(|d| d.name);
         return None;
     }
 
